@@ -13,6 +13,14 @@ package k8s
 // event's own buffer, below its length - never in the action's reusable join
 // buffer, which the next chunks of the stream overwrite.
 
+// escapedCutLen (cut_off_event_by_limit): the kept prefix of the escaped fragment
+// is within the fragment and within the limit; total on any string.
+
+//@ func escapedCutLen
+//@   pure
+//@   ensures 0 <= result && result <= len(s) && (limit >= 0 ==> result <= limit) && (limit < 0 ==> result == 0)
+//@   loop 1 invariant 0 <= i && i <= len(s) && (limit >= 0 ==> i <= limit) && (limit < 0 ==> i == 0)
+
 //@ func (*MultilineAction).resetLogBuf
 //@   requires len(p.eventBuf) >= 1
 //@   modifies p.eventBuf, p.eventSize, p.cutOffEvent
